@@ -13,7 +13,9 @@ pub const VERIF_DIR: &str = "/verif";
 
 pub struct CheckSpec {
     pub id: &'static str,
-    pub generate: fn(prop: &str, seed: u64, tier: Tier) -> Scenario,
+    pub generate: fn(prop: &str, seed: u64, tier: Tier, run_index: u64) -> Scenario,
+    /// evaluation over the merged count tables of the whole batch (C15)
+    pub finalize: Option<fn(tables: &BTreeMap<String, Vec<u64>>, prop: &str) -> (Option<Violation>, Value)>,
     pub runs_quick: u64,
     pub runs_thorough: u64,
     pub rule: &'static str,
@@ -216,7 +218,7 @@ pub fn run_batch(spec: &CheckSpec, tier: Tier, seed: u64, n: u64, max_secs: u64)
                     }
                     for idx in lo..(lo + chunk).min(n) {
                         let rs = run_seed(seed, spec.id, idx);
-                        let scn = (spec.generate)(spec.id, rs, tier);
+                        let scn = (spec.generate)(spec.id, rs, tier, idx);
                         let mut out = scn.execute(&dir);
                         out.stats.nontrivial = (spec.nontrivial)(&out.stats);
                         acc.add(idx, out);
@@ -237,7 +239,7 @@ pub fn run_batch(spec: &CheckSpec, tier: Tier, seed: u64, n: u64, max_secs: u64)
     let mut samples = vec![];
     for idx in 0..2u64.min(n) {
         let rs = run_seed(seed, spec.id, idx);
-        let scn = (spec.generate)(spec.id, rs, tier);
+        let scn = (spec.generate)(spec.id, rs, tier, idx);
         let mut v = serde_json::to_value(&scn).unwrap_or(Value::Null);
         truncate_lists(&mut v, 24);
         samples.push(json!({"run_index": idx, "run_seed": rs, "world": scn.world(), "scenario": v}));
@@ -288,8 +290,26 @@ pub fn run_check(spec: &CheckSpec, tier: Tier) -> i32 {
         Tier::Thorough => 1500,
     });
     let res = run_batch(spec, tier, seed, n, max_secs);
-    let (code, known_hit, nviol) = report(spec, tier, seed, &res);
-    write_evidence(spec, tier, seed, &res, &known_hit, nviol, json!({}));
+    let (mut code, known_hit, mut nviol) = report(spec, tier, seed, &res);
+    let mut extra = json!({});
+    if let Some(fin) = spec.finalize {
+        let (v, rep) = fin(&res.acc.tables, spec.id);
+        extra = json!({"statistical_tables": rep});
+        if let (Some(v), 0) = (v, code) {
+            // the statistical verdict belongs to the whole batch: the replay file re-runs the batch
+            let scn = Scenario::StatBatch { property: spec.id.to_string(), verif_seed: seed, runs: res.acc.runs };
+            let rf = ReplayFile { property: spec.id.to_string(), verif_seed: seed, run_index: 0, run_seed: 0, scenario: scn, violation: v.clone(), original_len: 0 };
+            let rdir = format!("{}/replays", VERIF_DIR);
+            let _ = std::fs::create_dir_all(&rdir);
+            let path = format!("{}/{}_{}_batch.json", rdir, spec.id, seed);
+            std::fs::write(&path, serde_json::to_string_pretty(&rf).unwrap()).expect("write replay");
+            println!("violation class={} site={} op_index={} field={} expected={} actual={} {}", v.class, v.site, v.op_index, v.field, v.expected, v.actual, v.detail);
+            println!("VIOLATION property={} replay={}", spec.id, path);
+            code = 1;
+            nviol += 1;
+        }
+    }
+    write_evidence(spec, tier, seed, &res, &known_hit, nviol, extra);
     code
 }
 
@@ -314,7 +334,7 @@ pub fn report(spec: &CheckSpec, _tier: Tier, seed: u64, res: &BatchResult) -> (i
     if let Some((idx, v)) = fresh.first().map(|x| (x.0, x.1.clone())) {
         // minimise and write the replay file
         let rs = run_seed(seed, spec.id, idx);
-        let scn = (spec.generate)(spec.id, rs, Tier::Quick);
+        let scn = (spec.generate)(spec.id, rs, Tier::Quick, idx);
         let dir = format!("{}/shrink", scratch_root());
         let _ = std::fs::create_dir_all(&dir);
         let original_len = scn.len();
@@ -370,7 +390,7 @@ pub fn write_evidence(spec: &CheckSpec, tier: Tier, seed: u64, res: &BatchResult
         "faults_fired": acc.faults,
         "probes": acc.probes,
         "reach_zero": reach_zero,
-        "inconclusive_runs": acc.inconclusive,
+        "inconclusive": format!("{} of {} runs closed as inconclusive (belief set over the cap); never counted as a violation", acc.inconclusive, acc.runs),
         "maxima": acc.maxes,
         "distinct": acc.sets.iter().map(|(k, v)| (k.to_string(), v.len())).collect::<BTreeMap<String, usize>>(),
         "components": {"real": spec.real, "stub": spec.stub},
@@ -437,4 +457,18 @@ pub fn replay(path: &str) -> i32 {
             0
         }
     }
+}
+
+/// Sequential re-run of a whole statistical batch (replay of a C15 statistical violation).
+pub fn stat_batch(prop: &str, seed: u64, runs: u64) -> RunOutcome {
+    let spec = match crate::checks::find(prop) {
+        Some(s) => s,
+        None => return RunOutcome { violation: None, stats: RunStats::default() },
+    };
+    let res = run_batch(&spec, Tier::Quick, seed, runs, 100_000);
+    let v = match res.acc.violations.first() {
+        Some((_, v)) => Some(v.clone()),
+        None => spec.finalize.and_then(|f| f(&res.acc.tables, prop).0),
+    };
+    RunOutcome { violation: v, stats: RunStats::default() }
 }
